@@ -472,7 +472,7 @@ where
 
         let stored_to = to.min(stored_len);
         let mut hole_iter = self.holes().range(from..to).peekable();
-        let mut update_iter = self.updated().range(from..stored_to).peekable();
+        let mut update_iter = self.updated().range(from.min(stored_to)..stored_to).peekable();
 
         let mut byte_off = from * Self::SIZE_OF_T;
         for i in from..stored_to {
@@ -523,7 +523,7 @@ where
 
         let stored_to = to.min(stored_len);
         let mut hole_iter = self.holes().range(from..to).peekable();
-        let mut update_iter = self.updated().range(from..stored_to).peekable();
+        let mut update_iter = self.updated().range(from.min(stored_to)..stored_to).peekable();
 
         let mut byte_off = from * Self::SIZE_OF_T;
         for i in from..stored_to {
